@@ -41,6 +41,10 @@ type cgen struct {
 	cover          bool
 	coverEmit      bool
 	prevOp         op.Opcode
+	// inTry is true while generating the body of a try,
+	// tryLabels are the labels of the loop (if any) that contains the try
+	inTry     bool
+	tryLabels *Labels
 }
 
 type opcodeCombo struct {
@@ -430,6 +434,7 @@ func (cg *cgen) returnStmt(node *ast.Return, lastStmt bool) {
 }
 
 func (cg *cgen) breakStmt(labels *Labels) {
+	cg.leaveTry(labels)
 	if labels != nil {
 		labels.brk = cg.emitJump(op.Jump, labels.brk)
 	} else if cg.isBlock {
@@ -440,6 +445,7 @@ func (cg *cgen) breakStmt(labels *Labels) {
 }
 
 func (cg *cgen) continueStmt(labels *Labels) {
+	cg.leaveTry(labels)
 	if labels != nil {
 		if labels.cont != -1 && labels.cont < len(cg.code) {
 			cg.emitBwdJump(op.Jump, labels.cont)
@@ -450,6 +456,15 @@ func (cg *cgen) continueStmt(labels *Labels) {
 		cg.emit(op.BlockContinue)
 	} else {
 		panic("continue can only be used within a loop")
+	}
+}
+
+// leaveTry is used by break and continue.
+// If the jump leaves a try body it skips the op.Catch at the end of the body,
+// so we emit an op.Catch (that jumps nowhere) to stop catching.
+func (cg *cgen) leaveTry(labels *Labels) {
+	if cg.inTry && labels != nil && labels == cg.tryLabels {
+		cg.emit(op.Catch, 0, 0)
 	}
 }
 
@@ -606,7 +621,9 @@ func (cg *cgen) tryCatchStmt(node *ast.TryCatch, labels *Labels) {
 	cg.coverEmit = false
 	catch := cg.emitJump(op.Try, -1)
 	cg.emitMore(byte(cg.value(SuStr(node.CatchFilter))))
+	cg.inTry, cg.tryLabels = true, labels
 	cg.statement(node.Try, labels, false)
+	cg.inTry, cg.tryLabels = false, nil
 	after := cg.emitJump(op.Catch, -1)
 	cg.placeLabel(catch)
 	if node.Catch != nil {
